@@ -15,6 +15,7 @@ StepBad ==
   \/ (last'.c \in Conn /\ ~verified[last'.c] /\ last'.a # "Close"
         /\ (val' # val \/ cb' # cb \/ extra' # extra \/ legitPaired' # legitPaired \/ ~(subs' \subseteq subs)))
   \/ (\E c \in last'.ev : ~verified[c])
+  \/ last'.r = "V4ok+Served"
 
 Used(c) == \E i \in 1..Len(hist) : hist[i].c = c
 
